@@ -12,7 +12,8 @@ CLAIMS = {
          "meaning is the face-cache invariant), zero net force and torque per face; angle gradients sum to zero; prologue of the tension "
          "routine; gradient lemmas for area and volume. Bending and the angle-regularisation forces are NOT under a deductive contract: their "
          "zero net force / torque clause is run natively on the real routines for a fixed list of closed meshes and reported as a BOUNDED "
-         "check (never counted as proved); whole-cell zero net pressure force rests on the quoted closed-surface lemma."),
+         "check (never counted as proved); whole-cell zero net pressure force rests on the quoted closed-surface lemma. Also under contract: the face cache the forces "
+         "read (C12 contract re-run) and the order in which apply_internal_forces refreshes it and applies each force routine exactly once."),
    design='6 C02', technique='contract-based deductive verification: loop-body contracts on the clang AST + SMT and exact ideal-membership (sympy Groebner) for polynomial identities; bounded native stand-in for the bending / angle force sums, labelled bounded',
    note=NOTE_COMMON + " sympy 1.14 polynomial arithmetic is an additional trusted back end for equalities."),
  'C03': dict(
@@ -30,7 +31,8 @@ CLAIMS = {
          "(epithelial vs base class), removal predicate and its side effect, 3-sigma clamp of the sampled growth rate / division volume, order of "
          "operations in apply_internal_forces (callees by contract), structure of run_iteration (removal over the whole list exactly once per "
          "iteration, after integration, nothing re-inserted; every other callee modelled as 'may do anything'), and the initial-pressure loop body "
-         "of the solver constructor. No bound on inputs or histories; loops by contract / arbitrary-iteration slice."),
+         "of the solver constructor; the internal-forces loop of the iteration (starts at the first cell, one call per cell with the configured time step). "
+         "No bound on inputs or histories; loops by contract / arbitrary-iteration slice."),
    design='6 C04', technique='contract-based deductive verification: own VC generator over the clang AST (heap model, callee contracts, loop-body contracts) + SMT',
    note=NOTE_COMMON + " log/exp uninterpreted; std::remove_if/erase by the standard's specification; two callee frames assumed here and proved under C12."),
  'C06': dict(
@@ -65,7 +67,8 @@ CLAIMS = {
    text=("Contracts on the real geometric queries of cell: the face-cache routine establishes area/normal from the area vector of the current "
          "positions; volume and area are proved equal to explicit ghost sums over the used faces through loop contracts (std::accumulate included); "
          "centroid and bounding box through a contract on an arbitrary loop iteration (plus the box prologue); the covariance matrix given to "
-         "the eigen-solver; the winding correction between two faces sharing an edge. All meshes, positions and slot patterns symbolic."),
+         "the eigen-solver; the winding correction between two faces sharing an edge; the order of the stages of initialize_cell_properties (face cache after the "
+         "orientation pass, area and volume after the cache). All meshes, positions and slot patterns symbolic."),
    design='6 C12', technique='contract-based deductive verification: loop contracts with ghost partial-sum functions, cuts and generalisation lemmas, SMT + exact polynomial back end',
    note=NOTE_COMMON + " Enclosed-volume meaning and rigid-motion invariance of volume/centroid rest on the quoted closed-surface lemma; flood fill and eigen-solver are named unverified."),
  'C14': dict(
@@ -150,7 +153,8 @@ CLAIMS = {
          "(with the no-gap lemma for dt <= S in exact arithmetic), what run_iteration writes when (statistics every 50th iteration, mesh output "
          "considered once, one integration step, counter +1), the exit condition of the main loop and the final statistics write, and which "
          "cell attribute each statistics column formats. A bounded native run of the real numbering code in doubles for listed (dt,S) pairs "
-         "is reported separately and labelled bounded; it exhibits the recorded known finding (gaps when S == dt)."),
+         "is reported separately and labelled bounded; it exhibits the recorded known finding (gaps when S == dt). The writer compacts every cell before "
+         "writing (contract on its per-cell wrapper); the row / field structure of the statistics tables is sampled by a second bounded native scenario."),
    design='6 C19', technique='contract-based deductive verification (SMT with to_int) on the clang AST; bounded native stand-in for the floating-point numbering, labelled bounded',
    note=NOTE_COMMON + " File contents, row structure and printed precision (iostream / sprintf) are not decided."),
  'C20': dict(
@@ -158,7 +162,8 @@ CLAIMS = {
          "variable, is indexable and maps to an existing voxel; voxel count without 32-bit wrap; grid emptied), index functions (formula, range, "
          "no wrap, no undefined conversion), place_object (multiset frame: only that voxel/object changes), get_voxel_content, and for "
          "get_neighborhood / get_grid_content a contract on the loop bounds plus a contract on an arbitrary iteration of the loop body; two "
-         "arithmetic lemmas (flattening injective, adjacency under one voxel size). No bound on box, size or contents except < 2^20 voxels per axis."),
+         "arithmetic lemmas (flattening injective, adjacency under one voxel size); the position overload of get_neighborhood answers every point of the closed box "
+         "through the clamped voxel of the point. No bound on box, size or contents except < 2^20 voxels per axis."),
    design='6 C20', technique='contract-based deductive verification: own VC generator over the clang AST (prefix/loop-body contracts, multiset model of forward_list) + SMT with to_int',
    note=NOTE_COMMON + " The step from 'bounds + arbitrary iteration' to 'every voxel of the block is visited once' is for-loop semantics, stated in the evidence."),
  'C05': dict(
